@@ -13,9 +13,34 @@ def write_events(events, path):
             f.write(json.dumps(e, separators=(",", ":")) + "\n")
 
 
+_SCHEMAS = {}
+
+
+def check_format(events, module, sample=150):
+    """the trace formats are documented as JSON schemas (spec/trace_formats); a sample of every batch is validated
+    so that a malformed event is a machinery error here rather than a confusing TLC message"""
+    path = os.path.join(tlc.SPEC, "trace_formats", module + ".schema.json")
+    if not os.path.exists(path):
+        return
+    try:
+        import jsonschema
+    except ImportError:
+        return
+    if module not in _SCHEMAS:
+        with open(path) as f:
+            _SCHEMAS[module] = json.load(f)
+    step = max(1, len(events) // sample)
+    for e in events[::step]:
+        try:
+            jsonschema.validate(e, _SCHEMAS[module])
+        except jsonschema.ValidationError as ex:
+            raise tlc.MachineryError("event %r does not match %s: %s" % (e.get("id"), path, ex.message[:300]))
+
+
 def validate(events, module, tag, workers=1, timeout=3600, extra_env=None):
     """events: list of dicts with unique integer 'id'. Returns (rejects, info) where rejects is a list of
     (id, clause) and info has TLC statistics. Raises MachineryError unless every line was consumed."""
+    check_format(events, module)
     wd = tlc.workdir("tv_" + tag)
     path = os.path.join(wd, "trace.ndjson")
     write_events(events, path)
